@@ -15,15 +15,17 @@ import common as C
 
 PID = "C19"
 DRIVER = [("C19", "TfPwaV.Model.Config", "Config.handle")]
-LEAN_TARGETS = ["TfPwaV.Props.C19"]
-PROP_MODULES = ["TfPwaV.Props.C19"]
-ALL_MODULES = ["TfPwaV.Model.Config", "TfPwaV.Model.LS", "TfPwaV.Proofs.Config", "TfPwaV.Props.C19", "TfPwaV.Props.C13"]
+LEAN_TARGETS = ["TfPwaV.Props.C19", "TfPwaV.Props.C19b", "TfPwaV.Props.C19c"]
+PROP_MODULES = ["TfPwaV.Props.C19", "TfPwaV.Props.C19b", "TfPwaV.Props.C19c"]
+ALL_MODULES = ["TfPwaV.Model.Config", "TfPwaV.Model.LS", "TfPwaV.Proofs.Config", "TfPwaV.Props.C19", "TfPwaV.Props.C19b", "TfPwaV.Props.C19c", "TfPwaV.Props.C13"]
 ASSUMPTIONS = [
     "grammar of cards: 3- and 4-body, two-body decays (HelicityDecay) only, $top/$finals given (name/list form or dict form), candidate lists of plain names (1-3, occasionally empty or shared between slots), spins from {0,1/2,1,3/2,2} written as int / float / 'k/2', parities +-1 / missing / null, C with c_break, per-decay options p_break c_break l_list ls_list (+ has_barrier_factor as an irrelevant key), aliases m0 g0 Par bw, $include through share_dict, float / m_min m_max bounds, permuted keys; every particle name occurs at most once in a chain (name:id counters all 0)",
     "excluded by design and stated: m_min/m_max WITHOUT mass (set_min_max draws random.random()), fix_chain_val left to np.random.uniform (only names / fixed sets are compared, never initial values), mass_cut, nested dict items inside candidate lists, cyclic cards (Python RecursionError; the model returns raise:RecursionError), 3-body decays",
     "the translation of a Python card into the token line of the Lean driver (encode_card) is trusted to be faithful",
     "export -> load (as_config) and the parameter-name / trainable / bound observables are validated on the implementation, not proved; the Lean model reproduces chains, (l,s) lists and parameter names (get_params key list)",
     "Python dict = association list in insertion order; str ordering = code-point order (Lean String <)",
+    "the grammar uses at most ONE $include file; with two includes and mixed alias/canonical spellings the loader lets the first include override the card (theorem alias_include_two_refuted on the model, two_include_demo on the implementation, recorded as a note unless REPORT_TWO_INCLUDE_ALIAS is set; proposed repair fixes/C19-fix_include_alias_override.diff)",
+    "export -> import: the model function Card.roundTrip (as_config restricted to J, P, C, mass, width, p_break, c_break) is compared with the real as_config -> ConfigLoader on every card; proved: the export keeps what the loader reads of every particle and decay (export_import_partial_qn/_ls) and one kernel-evaluated instance; the general round-trip theorem is not proved",
 ]
 
 FINALS = ["B", "C", "D", "E"]
@@ -681,6 +683,16 @@ def obs_of(ctx, i, cfg, share):
     return ctx._c19_obs[i]
 
 
+def export_load(ctx, i, cfg, o):
+    """as_config() of the loaded group, loaded again (cached per case)"""
+    cache = ctx.__dict__.setdefault("_c19_exp", {})
+    if i not in cache:
+        ex = copy.deepcopy(o["export"])
+        ex["data"] = {"dat_order": list(cfg["data"]["dat_order"])}
+        cache[i] = observe(ex, {}, amp=False)
+    return cache[i]
+
+
 def correspond(ctx, res):
     cs = cases(ctx)
     lines, meta = [], []
@@ -689,6 +701,9 @@ def correspond(ctx, res):
         for op in ("chains", "ls", "params"):
             lines.append("C19 %s %s" % (op, enc))
             meta.append((i, op))
+    for i, (cfg, share) in enumerate(cs):
+        lines.append("C19 rt %s" % encode_card(cfg, share))
+        meta.append((i, "rt"))
     # the documented equivalences on the model itself (the theorem alias_equiv covers cards without $include)
     vrnd = random.Random(31 * ctx.seed + 3)
     for i, (cfg, share) in enumerate(cs):
@@ -709,6 +724,26 @@ def correspond(ctx, res):
                 if n_mv <= 2:
                     res.broke("model: expanded spelling of a card gives another %s" % op, {"case": i, "base": by_case[i][op][:400], "variant": by_case[i]["v" + op][:400], "config": cs[i][0]})
     res.coverage["model_variant_pairs"] = len(by_case)
+    # export -> import: model of as_config (op rt) against the model itself and against the real export -> load
+    n_rt = n_rt_bad = 0
+    for i, (cfg, share) in enumerate(cs):
+        o = obs_of(ctx, i, cfg, share)[0]
+        m = by_case[i]
+        if "raise" in o or m["chains"].startswith("raise"):
+            continue
+        oe = export_load(ctx, i, cfg, o)
+        impl_rt = ("raise:" + oe["raise"]) if "raise" in oe else "|".join(oe["chains"]) + " # " + "|".join(";".join(x) for x in oe["ls"])
+        n_rt += 1
+        if impl_rt != m["rt"]:
+            n_rt_bad += 1
+            if n_rt_bad <= 2:
+                res.broke("correspondence Config.roundTrip vs as_config -> ConfigLoader", {"case": i, "impl": impl_rt[:500], "model": m["rt"][:500], "config": cfg, "share": share})
+        dec_txt = json.dumps(cfg["decay"])
+        if "l_list" not in dec_txt and "ls_list" not in dec_txt and not m["rt"].startswith("raise"):
+            ch, ls = m["rt"].split(" # ")
+            if dict(zip(ch.split("|"), ls.split("|"))) != dict(zip(m["chains"].split("|"), m["ls"].split("|"))):
+                res.broke("model: export -> import changes chains or couplings", {"case": i, "rt": m["rt"][:400], "chains": m["chains"][:400], "ls": m["ls"][:300]})
+    res.coverage["roundtrip_cases"] = n_rt
     n_dis = 0
     nontriv = set()
     kinds = {}
@@ -828,9 +863,7 @@ def search(ctx, res):
                 fail("variant:alias-include-order", "the expanded spelling of the card (aliases, merged include, other $top/$finals form, permuted keys) differs in %s" % diff, i, {"variant": vcfg})
         # 5. export -> load
         if i % 2 == 1 or not ctx.quick or ctx.suspect:
-            ex = copy.deepcopy(o["export"])
-            ex["data"] = {"dat_order": list(cfg["data"]["dat_order"])}
-            oe = observe(ex, {}, amp=False)
+            oe = export_load(ctx, i, cfg, o)
             stat["exports"] += 1
             stat["loads"] += 1
             has_ls_opt = "ls_list" in json.dumps(cfg["decay"])
@@ -904,10 +937,46 @@ def search(ctx, res):
     demo = history_demo()
     if demo is not None:
         res.fail("history:cg-matrix-cache", demo["what"], demo["replay"])
+    demo2 = two_include_demo()
+    stat["two_include_alias_override_reproduces"] = demo2 is not None
+    if demo2 is not None:
+        if REPORT_TWO_INCLUDE_ALIAS:
+            res.fail("include:two-includes-alias-override", demo2["what"], demo2["replay"])
+        else:
+            res.notes.append("NOT REPORTED AS FAILURE (outside the one-include grammar, flag REPORT_TWO_INCLUDE_ALIAS): " + demo2["what"])
     stat["history_failures"] = hist_fail
     res.coverage.update({"search": stat})
     if stat["creators_grew"]:
         res.notes.append("every uncached get_chains_map()/topology_map call appends temporary BaseDecay objects to particle.creators of the loaded groups (%d group probes over %d cards: lists grow, particle.decay, decay[0] and creators[0] unchanged); chains, parameter names, trainable/fixed/bound sets of the same and of later loads are unchanged -> no observable effect on the property, candidate patch C14-fix_topology_map_no_register stays hygiene only" % (stat["creators_grew"], min(len(idx), n_hist)))
+
+
+# Two includes + mixed spellings: include #1 spells a key with its alias, include #2 (or the card) with the canonical
+# name -> the value of include #1 overrides the card's own value (shown on the implementation and reproduced by the
+# model; refuted as a theorem in Props/C19c `alias_include_two_refuted`).  The grammar keeps to ONE include, so the
+# check does not meet it; set the flag to report it as failure `include:two-includes-alias-override`
+# (proposed repair fixes/C19-fix_include_alias_override.diff).
+REPORT_TWO_INCLUDE_ALIAS = False
+
+
+def two_include_card(expanded):
+    inc1 = {"R": ({"P": -1, "width": 0.1} if expanded else {"Par": -1, "width": 0.1})}
+    inc2 = {"R": {"P": -1}}
+    cfg = {"data": {"dat_order": ["B", "C", "D"]}, "decay": {"A": ["R", "D"], "R": ["B", "C"]},
+           "particle": {"$top": {"A": {"J": 1, "P": -1, "mass": 5.0}},
+                        "$finals": {"B": {"J": 1, "P": -1, "mass": 0.1}, "C": {"J": 0, "P": -1, "mass": 0.5}, "D": {"J": 0, "P": -1, "mass": 0.5}},
+                        "$include": ["i1.yml", "i2.yml"], "R": {"J": 1, "P": 1, "mass": 2.0}}}
+    return cfg, {"i1.yml": inc1, "i2.yml": inc2}
+
+
+def two_include_demo():
+    """the card says R has P=+1; both includes say -1 (one of them as `Par`). Local definitions must win."""
+    a = observe(*two_include_card(False))
+    b = observe(*two_include_card(True))
+    if pub(a) != pub(b) or a.get("qn", {}).get("R", [None, None])[1] != 1:
+        return {"what": "two $include files, the first spelling the parity as `Par`: the card's own `P: 1` of R is overridden by the include (loaded P=%s, couplings %s); with the alias spelled out the card's value wins (P=%s, couplings %s)" % (
+            a.get("qn", {}).get("R", [None, None])[1], a.get("ls"), b.get("qn", {}).get("R", [None, None])[1], b.get("ls")),
+            "replay": {"check": "two_include_demo"}}
+    return None
 
 
 def lambda_card(jp):
@@ -943,6 +1012,10 @@ def replay(ctx, payload):
     if not r:
         print("replay file names a broken obligation, not a failing input: %s" % json.dumps(payload.get("broken"), default=str)[:3000])
         return 1
+    if r.get("check") == "two_include_demo":
+        d = two_include_demo()
+        print("REPLAY two_include_demo:", d["what"] if d else "not reproduced on this tree")
+        return 1 if d else 0
     if r.get("check") == "history_demo":
         d = history_demo()
         print("REPLAY history_demo:", d["what"] if d else "not reproduced on this tree")
@@ -951,6 +1024,7 @@ def replay(ctx, payload):
     # re-run the whole per-card statement on the stored card
     ctx._c19_cases = [(cfg, share)]
     ctx._c19_obs = {}
+    ctx._c19_exp = {}
     ctx.quick = False
     res = C.Result()
     real_demo = globals()["history_demo"]
